@@ -47,7 +47,7 @@ def feat_remove(ghost, feature):
 
 
 model('ghost:AgDlc', fields={}, methods={'write': Callback('write', effect=ag_dlc_write)})
-model('ghost:FeatureSet', fields={}, methods={'add': Callback('add', effect=lambda ghost, f: None),
+model('ghost:FeatureSet', fields={}, methods={'add': Callback('add', effect=lambda ghost, f: None), 'discard': Callback('discard', effect=lambda ghost, f: None),
                                               'remove': Callback('remove', effect=feat_remove, raises=(KeyError,))})
 model('bumble.hfp:AtCommand#g', fields=dict(code=Str, sub_code=Any, parameters=Any))
 
@@ -300,4 +300,159 @@ contract(
     with_enter=lambda path, cm: None,
     with_exit=lambda path, cm: None,
     note='the loop ends when a status code arrives or asyncio.wait_for times out (peer / event loop: environment)',
+)
+
+
+# ---------------------------------------------------------------------------
+# at.tokenize_parameters / parse_parameters: terminate on every input (one step per input byte / token)
+# ---------------------------------------------------------------------------
+contract(
+    'bumble.at:tokenize_parameters',
+    prop='C20',
+    profile='skeleton',
+    params=dict(buffer=Bytes),
+    returns=ListOf(Bytes),
+    raises={at.AtParsingError: None},
+    invariants={0: lambda buffer, _i: [0 <= _i, _i <= len(buffer)]},
+    decreases={0: lambda buffer, _i: len(buffer) - _i},
+    loop_locals={0: {'tokens': Any}},
+    modifies=[],
+    note='termination and the exceptions that may escape only; the token list itself is not interpreted',
+)
+contract(
+    'bumble.at:parse_parameters',
+    prop='C20',
+    profile='skeleton',
+    params=dict(buffer=Bytes),
+    raises={at.AtParsingError: None},
+    invariants={0: lambda tokens, _i: [0 <= _i, _i <= len(tokens)]},
+    decreases={0: lambda tokens, _i: len(tokens) - _i},
+    loop_locals={0: {'accumulator': Any, 'current': Any}},
+    modifies=[],
+    uses=['bumble.at:tokenize_parameters'],
+    note='termination and the exceptions that may escape only (nesting of the parameter lists is not interpreted)',
+)
+
+
+# ---------------------------------------------------------------------------
+# HfProtocol.initiate_slc -- storage of what the AG reports about the HF indicators (+BIND), per step
+#
+# Only the path of the procedure that negotiates HF indicators is followed: the HF supports HF_INDICATORS only (no codec
+# negotiation, no three-way calling), the AG reports no AG indicators (+CIND lists empty).  Every AT round trip is the stub
+# execute_command returning the next canned response.  The two HF indicators the profile defines and both enabled values
+# are enumerated, so the +BIND steps are covered for every (indicator, value).
+# ---------------------------------------------------------------------------
+from pyvc.ext_c20 import ConcDict  # noqa: E402
+
+HFI = hfp.HfIndicator
+HF_IND_BIT = int(hfp.HfFeature.HF_INDICATORS)
+AG_IND_BIT = int(hfp.AgFeature.HF_INDICATORS)
+
+
+def hf_exec(ghost, cmd, timeout=1.0, response_type=hfp.AtResponseType.NONE):
+    ghost.ncmds = ghost.ncmds + 1
+    if response_type == hfp.AtResponseType.MULTIPLE:
+        return ghost.bind_read
+    if response_type == hfp.AtResponseType.SINGLE:
+        ghost.nsingle = ghost.nsingle + 1
+        if ghost.nsingle == 1:
+            return ghost.brsf
+        if ghost.nsingle == 2 or ghost.nsingle == 3:
+            return ghost.cind
+        return ghost.bind_test
+    return None
+
+
+model('bumble.hfp:AtResponse#p', fields=dict(code=Str, parameters=Any))
+model('bumble.hfp:HfIndicatorState', fields=dict(indicator=Any, supported=Bool, enabled=Bool, current_status=Int))
+model(
+    'bumble.hfp:HfProtocol#slc',
+    fields=dict(supported_hf_features=Const(HF_IND_BIT), supported_audio_codecs=Const([]), supported_ag_features=Int,
+                hf_indicators=ConcDict([HFI.ENHANCED_SAFETY, HFI.BATTERY_LEVEL], Inst('bumble.hfp:HfIndicatorState')),
+                ag_indicators=Any, supported_ag_call_hold_operations=Any, _slc_initialized=Bool),
+    methods={'execute_command': Callback('execute_command', effect=hf_exec, is_async=True)},
+)
+
+
+def rsp(parameters):
+    return Inst('bumble.hfp:AtResponse#p', parameters=parameters)
+
+
+def bind_post(self, ghost):
+    ag = int(ghost.brsf.parameters[0])
+    ind = int(ghost.bind_read[0].parameters[0])
+    val = int(ghost.bind_read[0].parameters[1])
+    return [
+        self.supported_ag_features == ag,
+        # what the AG reports as enabled / disabled is what the HF holds afterwards, for that indicator
+        implies(ag & AG_IND_BIT != 0 and ind == 1, self.hf_indicators[HFI.ENHANCED_SAFETY].enabled == (val != 0)),
+        implies(ag & AG_IND_BIT != 0 and ind == 2, self.hf_indicators[HFI.BATTERY_LEVEL].enabled == (val != 0)),
+        # ... and the indicators the AG lists as supported are marked supported
+        implies(ag & AG_IND_BIT != 0 and int(ghost.bind_test.parameters[0][0]) == 1, self.hf_indicators[HFI.ENHANCED_SAFETY].supported),
+        implies(ag & AG_IND_BIT != 0 and int(ghost.bind_test.parameters[0][0]) == 2, self.hf_indicators[HFI.BATTERY_LEVEL].supported),
+        self._slc_initialized,
+    ]
+
+
+contract(
+    'bumble.hfp:HfProtocol.initiate_slc',
+    prop='C20',
+    profile='skeleton',
+    params=dict(self=Inst('bumble.hfp:HfProtocol#slc')),
+    ghost=dict(
+        ncmds=Const(0), nsingle=Const(0),
+        brsf=rsp(ConcList(OneOf(b'0', str(AG_IND_BIT).encode(), b'1023'), 1)),
+        cind=rsp(Const([])),
+        bind_test=rsp(ConcList(ConcList(OneOf(b'1', b'2'), 1), 1)),
+        bind_read=ConcList(rsp(TupleOf(OneOf(b'1', b'2'), OneOf(b'0', b'1'))), 1),
+    ),
+    ensures=bind_post,
+    ensures_names=['ag-features-stored', 'enabled-as-reported(enhanced-safety)', 'enabled-as-reported(battery-level)', 'supported(enhanced-safety)',
+                   'supported(battery-level)', 'slc-initialized'],
+    modifies=['self.*'],
+    inline=['HfProtocol.supports_*'],
+    note='bounded: one +BIND line, no AG indicators, HF feature set {HF_INDICATORS}; the agreement of the two ends over the 13 round trips is not covered',
+)
+
+
+# ---------------------------------------------------------------------------
+# AgProtocol._on_bind_read: what the AG reports about each HF indicator is what the AG itself holds (value profile)
+# ---------------------------------------------------------------------------
+def rec_write(ghost, text):
+    ghost.texts = ghost.texts + [text]
+
+
+model('ghost:AgDlc#rec', fields={}, methods={'write': Callback('write', effect=rec_write)})
+model('bumble.hfp:HfIndicatorState#c', fields=dict(indicator=Any, supported=Bool, enabled=OneOf(True, False), current_status=Int))
+model(
+    'bumble.hfp:AgProtocol#bind',
+    fields=dict(dlc=Inst('ghost:AgDlc#rec'), supported_ag_features=IntRange(0, 0xFFFF), _remained_slc_setup_features=Inst('ghost:FeatureSet'),
+                hf_indicators=ConcDict([HFI.ENHANCED_SAFETY, HFI.BATTERY_LEVEL], Inst('bumble.hfp:HfIndicatorState#c'))),
+    methods={'emit': Callback('emit', effect=lambda ghost, *a: None)},
+)
+
+
+def bind_line(indicator, state):
+    return '\r\n+BIND: ' + str(indicator.value) + ',' + ('1' if state.enabled else '0') + '\r\n'
+
+
+def _native_bind(env):
+    env['self']._remained_slc_setup_features = {hfp.HfFeature.HF_INDICATORS}
+
+
+contract(
+    'bumble.hfp:AgProtocol._on_bind_read',
+    prop='C20',
+    params=dict(self=Inst('bumble.hfp:AgProtocol#bind')),
+    ghost=dict(texts=Const([]), feature_pending=Const(True)),
+    ensures=lambda self, ghost: [
+        implies(self.supported_ag_features & AG_IND_BIT != 0,
+                ghost.texts == [bind_line(i, s) for (i, s) in self.hf_indicators.items()] + ['\r\nOK\r\n']),
+        implies(self.supported_ag_features & AG_IND_BIT == 0, ghost.texts == ['\r\nERROR\r\n']),
+    ],
+    ensures_names=['reports-own-state-then-OK', 'ERROR-without-the-feature'],
+    modifies=['ghost.texts'],
+    inline=['AgProtocol.send_*', 'AgProtocol.supports_*', 'AgProtocol._check_remained_slc_commands'],
+    native_setup=_native_bind,
+    note='both defined HF indicators present; both values of each `enabled` enumerated',
 )
